@@ -19,7 +19,12 @@ variable), expansion of typedef names into their packed struct type, folding of 
 import re
 
 class Unmodelled(Exception): pass
-class SvSyntaxError(Exception): pass
+class SvSyntaxError(Exception):
+  kind = 'grammar'
+class SelectOnExpression(SvSyntaxError):
+  """`( e )[i]`, `N'( e )[i]`, `N'dV[i]`: IEEE 1800-2017 A.8.4 allows a select only after a (hierarchical) identifier or a
+  concatenation — the text is not SystemVerilog"""
+  kind = 'select-on-expression'
 
 KEYWORDS_UNMODELLED = {
   'function', 'endfunction', 'task', 'endtask', 'generate', 'endgenerate', 'genvar', 'initial', 'parameter', 'interface',
@@ -489,11 +494,17 @@ class Parser:
       s.next(); a = s.unary()
       return ('un', UNOPS[v], a)
     return s.primary()
+  def no_select(s, what):
+    if s.at('['):
+      k, v, ln = s.peek()
+      ctx = ' '.join(t[1] for t in s.toks[max(0, s.i - 8): s.i + 4])
+      raise SelectOnExpression(f'line {ln}: select applied to {what}: `{ctx}`')
   def primary(s):
     k, v, ln = s.peek()
     if k == 'slit':
       s.next(); w, val = lit_value(v)
       if w <= 0: raise s.err('zero-width literal')
+      s.no_select('a literal')
       return ('lit', w, val)
     if k == 'ulit': raise Unmodelled(f'unsized based literal {v}')
     if k == 'num':
@@ -502,11 +513,13 @@ class Parser:
         if s.peek(1)[1] != '(': raise s.err('bad cast')
         s.next(); s.next(); a = s.expr(); s.expect(')')
         if n <= 0: raise s.err('zero-width cast')
+        s.no_select('a size cast')
         return ('cast', n, a)
       return ('num', n)
     if k == 'sysid': raise Unmodelled(f'system function {v}')
     if v == '(':
       s.next(); e = s.expr(); s.expect(')')
+      s.no_select('a parenthesised expression')
       return e
     if v == '{':
       s.next()
@@ -518,11 +531,19 @@ class Parser:
         while s.at(','): s.next(); xs.append(s.expr())
         s.expect('}'); s.expect('}')
         if n <= 0: raise s.err('non-positive replication count')
+        if s.at('['): raise Unmodelled('select on a replication')
         return ('repl', n, xs[0] if len(xs) == 1 else ('concat', xs))
       xs = [first]
       while s.at(','): s.next(); xs.append(s.expr())
       s.expect('}')
-      return ('concat', xs)
+      c = ('concat', xs)
+      if s.at('['):           # concatenation [ range_expression ] is legal; only the bit select is modelled
+        s.next(); a = s.expr()
+        if not s.at(']'): raise Unmodelled('part select on a concatenation')
+        s.next()
+        if s.at('['): raise s.err('second select on a concatenation')
+        return ('index', c, a)
+      return c
     if k == 'id':
       if v in KEYWORDS_UNMODELLED: raise Unmodelled(f'keyword `{v}` (line {ln})')
       name = s.ident()
